@@ -34,6 +34,7 @@ func sendRun(reqs []rscp.Message, crc bool, now time.Time) (impl string, prop st
 	cl.VerifAttachConn(sc)
 	rscp.Now = func() time.Time { return now }
 	defer func() { rscp.Now = time.Now }()
+	wantBefore := msgsString(reqs)
 	res := func() (s string) {
 		defer func() {
 			if r := recover(); r != nil {
@@ -47,6 +48,9 @@ func sendRun(reqs []rscp.Message, crc bool, now time.Time) (impl string, prop st
 		return "ok"
 	}()
 	prop = "pass"
+	if after := msgsString(reqs); after != wantBefore {
+		return res, "FAIL * SendMultiple modified the caller's requests: " + trunc(after, 120)
+	}
 	// decrypt everything the client wrote
 	var plains [][]byte
 	for _, w := range sc.writes {
@@ -72,7 +76,7 @@ func sendRun(reqs []rscp.Message, crc bool, now time.Time) (impl string, prop st
 		return fmt.Sprintf("ok writes=%d", len(sc.writes)), "FAIL C05 not exactly one frame for the request"
 	}
 	text, sec, nsec, hasCrc, perr := peerParseFrame(plains[1])
-	want := msgsString(reqs)
+	want := wantBefore
 	switch {
 	case perr != "":
 		prop = "FAIL C05 the transmitted frame is not well-formed for an independent parser: " + perr
@@ -118,6 +122,27 @@ func init() {
 			m := rscp.Message{Tag: rscp.INFO_REQ_UTC_TIME, DataType: rscp.DataType(c)}
 			sendCase(cw, []rscp.Message{m}, true, g.time(), fmt.Sprintf("type-code=%d nil-value", c))
 			sendCase(cw, []rscp.Message{{Tag: rscp.BAT_REQ_DATA, DataType: rscp.Container, Value: []rscp.Message{m}}}, false, g.time(), fmt.Sprintf("type-code=%d nil-value nested", c))
+		}
+		// values of defined (named) Go types under the data type of their underlying type; an item declared value-less
+		// that carries the value its tag's table type would take
+		for k, v := range namedValues {
+			for _, dt := range []rscp.DataType{rscp.CString, rscp.ByteArray, rscp.Container, rscp.Bool, rscp.UChar8, rscp.Int32, rscp.None} {
+				m := rscp.Message{Tag: rscp.INFO_REQ_UTC_TIME, DataType: dt, Value: v}
+				sendCase(cw, []rscp.Message{m}, k%2 == 0, g.time(), fmt.Sprintf("named-type=%d dt=%d", k, dt))
+				sendCase(cw, []rscp.Message{{Tag: rscp.BAT_REQ_DATA, DataType: rscp.Container, Value: []rscp.Message{m}}}, k%2 == 1, g.time(), fmt.Sprintf("named-type=%d dt=%d nested", k, dt))
+			}
+		}
+		for _, dt := range definedTypes {
+			rq := g.reqByType[dt]
+			if len(rq) == 0 || dt == rscp.None {
+				continue
+			}
+			for j := 0; j < 2; j++ {
+				b := 100
+				m := rscp.Message{Tag: rq[g.pick(len(rq))], DataType: rscp.None, Value: g.value(dt, 1, &b)}
+				sendCase(cw, []rscp.Message{m}, j == 0, g.time(), fmt.Sprintf("none-with-tag-typed-value dt=%d", dt))
+				sendCase(cw, []rscp.Message{{Tag: rscp.BAT_REQ_DATA, DataType: rscp.Container, Value: []rscp.Message{m}}}, j == 1, g.time(), fmt.Sprintf("none-with-tag-typed-value dt=%d nested", dt))
+			}
 		}
 		vs := []int{65527, 65528, 65529, 65535, 65536, 65541, 131072, 131079}
 		ts := []int{65534, 65535, 65536, 65537, 65538, 65539, 65540, 65550, 80000, 131072, 131086}
